@@ -357,7 +357,25 @@ def generic_replay(ctx, path):
         b = ctx.path("replay-sched.ndjson")
         open(b, "w").write(json.dumps({"acts": src["acts"]}) + "\n")
         tpath = ctx.path("replay-trace.ndjson")
-        run_harness(ctx, hs, ["attack", "in=" + b, "out=" + tpath, "n=4", "honest=1,2,3"])
+        n = src.get("n", 4)
+        run_harness(ctx, hs, ["attack", "in=" + b, "out=" + tpath, "n=%d" % n, "honest=" + ",".join(map(str, src.get("honest", [1, 2, 3]))),
+                              "stakes=" + ",".join(map(str, src.get("stakes", [1] * n)))])
+    elif obj.get("rerun"):
+        # a component schedule: execute it again on the current code and validate the new trace with the component's trace module
+        rr = obj["rerun"]
+        hs = build_harness(ctx)
+        b = ctx.path("replay-sched.ndjson")
+        open(b, "w").write(json.dumps(rr["schedule"]) + "\n")
+        tpath = ctx.path("replay-trace.ndjson")
+        args = [a.replace("{in}", b).replace("{out}", tpath) for a in rr["harness"]]
+        run_harness(ctx, hs, args)
+        rep = validate_trace(ctx, tpath, "replay", module=rr["module"], base_constants=rr["constants"], invariants=rr.get("invariants", []))
+        bad = sorted(set(v[0] for v in rep["viol"] if v[0].startswith(rr.get("prefix", prop + "."))))
+        ctx.log("monitors failing on the replay: %s; divergences: %d" % (bad, rep["ndiv"]))
+        if bad:
+            print("VIOLATION property=%s replay=%s" % (prop, path))
+            return 1
+        return 0
     elif obj.get("run_records"):
         tpath = ctx.path("replay-trace.ndjson")
         recs = obj["run_records"]
